@@ -3,7 +3,7 @@ from __future__ import annotations
 
 from .. import core, schema_h, translate_schema
 from ..runner import Suite
-from ..schema_suites import Constructors, FreshOrder, ModelCases, attr_name_members, gen, lossless, py_conforms
+from ..schema_suites import HelperFlows, Constructors, FreshOrder, ModelCases, attr_name_members, gen, lossless, py_conforms
 
 MANIFEST = dict(
     text="Lean 4 theorems about the executable model of validate + model_dump(by_alias, exclude_none) over the regenerated field tables of every McpPydanticBase subclass: for every conforming wire value (any depth, any size) every member of the input is preserved exactly under its wire name, unknown members included, and every added member is a declared default; plus a decide-checked table theorem over every .model_dump( / .model_dump_json( call found in src/ by the AST translator: a call whose result can reach the wire and whose receiver class reaches an aliased field passes by_alias=True. Correspondence on both backends and the Lean model, and a dynamic cross-check that executes the library-side serialisers (elicitation request builder, tool_result_to_dict, content_to_dict, roots / sampling / completion / initialize builders) with every alias populated.",
@@ -11,12 +11,19 @@ MANIFEST = dict(
     technique="Lean 4 proof over a model with schemas and call-site table regenerated from source + three-way differential run + execution of the library's serialisers",
     design="5/C10",
 )
-GEN = ["Schemas", "DumpSites"]
+GEN = ["Schemas", "DumpSites", "Builders"]
 THEOREMS = [
     "c10_translated",
     "c10_lossless",
     "c10_added_are_defaults",
     "c10_dump_sites_use_wire_names",
+    "c10_builders_fit_schemas",
+    "c10_names_apart",
+    "c10_construct_by_attribute_names",
+    "c10_no_none_members",
+    "c10_helpers_emit_wire_form",
+    "c10_parse_tables_fit_schemas",
+    "c10_parse_dispatch_lossless",
 ]
 RULE = (
     "lossless: every protocol class x every optional-member subset (<=4; seeded beyond) x extras {none, random, "
@@ -279,5 +286,10 @@ class Ctors(Constructors):
         return None
 
 
+class Flows(HelperFlows):
+    def oracle(self, case, o):
+        return self.wire_oracle(case, o)
+
+
 def suites():
-    return [Lossless(), DumpSites(), Order(), Ctors()]
+    return [Flows(), Lossless(), DumpSites(), Order(), Ctors()]
